@@ -161,9 +161,12 @@ class Cron(addons.AddonMainTask, block.SBlock):
                     + SEC_PER_MIN*(wakeup.minute - nowt.minute)
                     + (wakeup.second - nowt.second)
                     + (wakeup.microsecond - nowt.microsecond)/ 1_000_000.0)
-                if nowt.hour == 23 and wakeup.hour == 0:
-                    # wrap around midnight (relying on hourly wakeups in SET24)
-                    sleeptime += SEC_PER_DAY
+                # wrap around midnight (relying on hourly wakeups in SET24:
+                # the wakeup time is never more than one hour ahead)
+                if sleeptime < -SEC_PER_DAY/2:
+                    sleeptime += SEC_PER_DAY    # the wakeup time is tomorrow
+                elif sleeptime > SEC_PER_DAY/2:
+                    sleeptime -= SEC_PER_DAY    # past midnight, the wakeup time was yesterday
                 # sleeptime: negative = after the alarm time; positive = before the alarm time
                 if step == 0:
                     self.log_debug("sleep until wakeup: %.3f sec", sleeptime)
